@@ -54,7 +54,8 @@ def lean_type(t):
     if isinstance(t, tuple):
         return " × ".join(lean_type(x) for x in t[1])
     return {"i": "Int", "f": "α", "b": "Bool", "A1": "Array α", "A2": "Grid2 α", "A3": "Grid3 α",
-            "S2": "Grid2 (Int × Int)", "S3": "Grid3 (Int × Int × Int)"}[t]
+            "S2": "Grid2 (Int × Int)", "S3": "Grid3 (Int × Int × Int)",
+            "G2": "Grid2 (α × α)", "G3": "Grid3 (α × α × α)"}[t]
 
 
 def parse_sig(sig):
@@ -110,6 +111,8 @@ def parse_sig(sig):
         m = re.match(r"^UniTuple\((\w+),(\d+)\)$", s)
         if m:
             return ("T", [ty(m.group(1))] * int(m.group(2)))
+        if s.startswith("Tuple("):
+            return "infer"          # taken from the `return` statement
         raise Untranslatable(f"signature type {s}")
     return ty(ret), [ty(p) for p in out]
 
@@ -133,6 +136,9 @@ class Fn:
         self.rtype = rtype
         self.outputs = outputs          # mutated array parameters returned by a `void` kernel
         self.uses_big = False
+        self.raises = any(isinstance(x, ast.Raise) for x in ast.walk(node))
+        self.tuple_literals = {}        # name -> ast.Tuple of ast.Tuple (iterables of a `for`)
+        self.tmp = 0
 
     # ---- expressions -----------------------------------------------------------------------
     def coerce_f(self, e):
@@ -271,9 +277,22 @@ class Fn:
         if bt == "A3" and len(idx) == 3:
             return (f"({base.id}.get zero {self.index(idx[0], env)} {self.index(idx[1], env)} "
                     f"{self.index(idx[2], env)})"), "f"
+        if bt in ("S2", "G2") and len(idx) == 3:
+            comp = _const_int(idx[2])
+            if comp in (0, 1):
+                dflt = "(0, 0)" if bt == "S2" else "(zero, zero)"
+                return (f"({base.id}.get {dflt} {self.index(idx[0], env)} {self.index(idx[1], env)}).{comp + 1}",
+                        "i" if bt == "S2" else "f")
+        if bt in ("S3", "G3") and len(idx) == 4:
+            comp = _const_int(idx[3])
+            if comp in (0, 1, 2):
+                dflt = "(0, 0, 0)" if bt == "S3" else "(zero, zero, zero)"
+                proj = [".1", ".2.1", ".2.2"][comp]
+                return (f"({base.id}.get {dflt} {self.index(idx[0], env)} {self.index(idx[1], env)} "
+                        f"{self.index(idx[2], env)}){proj}", "i" if bt == "S3" else "f")
         raise Untranslatable(f"{self.name}: load {ast.unparse(n)} from {bt}")
 
-    def call(self, n, env):
+    def call(self, n, env, void_ok=False):
         f = ast.unparse(n.func)
         args = [self.expr(a, env) for a in n.args]
         kws = {k.arg: k.value for k in n.keywords}
@@ -312,6 +331,8 @@ class Fn:
                 return (f"((Int.ofNat {a[0]}.size), (Int.ofNat ({a[0]}.getD 0 #[]).size), "
                         f"(Int.ofNat (({a[0]}.getD 0 #[]).getD 0 #[]).size))", ("T", ["i", "i", "i"]))
             raise Untranslatable(f"{self.name}: np.shape of {a[1]}")
+        if f in ("np.full", "np.zeros", "np.empty"):
+            return self.alloc(n, f, env)
         callee = self.tr.resolve(self.modkey, f)
         if callee is not None:
             if len(args) != len(callee.ptypes) or kws:
@@ -327,8 +348,54 @@ class Fn:
             pre = "big " if callee.uses_big else ""
             if callee.uses_big:
                 self.uses_big = True
+            if callee.rtype is None and not void_ok:
+                raise Untranslatable(f"{self.name}: value of the void kernel {callee.name} used")
             return f"({callee.lean_name()} {pre}" + " ".join(out) + ")", callee.rtype
         raise Untranslatable(f"{self.name}: call to {f}")
+
+    def alloc(self, n, f, env):
+        """np.full(shape, value, dtype=) / np.zeros(shape, dtype=) / np.empty(shape, dtype=)"""
+        kws = {k.arg: ast.unparse(k.value) for k in n.keywords}
+        dt = kws.get("dtype", "np.float64")
+        isint = dt == "np.int32"
+        if dt not in ("np.float64", "np.int32"):
+            raise Untranslatable(f"{self.name}: dtype {dt}")
+        shp = n.args[0]
+        dims = shp.elts if isinstance(shp, ast.Tuple) else [shp]
+        if f == "np.full":
+            fill = self.coerce_f(self.expr(n.args[1], env))
+        elif f == "np.zeros":
+            fill = None
+        else:
+            fill = "empty"
+        ds = [self.expr(d, env) for d in dims]
+        if any(d[1] != "i" for d in ds):
+            raise Untranslatable(f"{self.name}: non-integer shape in {ast.unparse(n)}")
+        consts = [_const_int(d) for d in dims]
+        nat = [f"{d[0]}.toNat" for d in ds]
+        k = len(dims)
+        if fill == "empty":
+            if not all(c == 0 for c in consts):
+                raise Untranslatable(f"{self.name}: np.empty with a non-empty shape is uninitialised memory: {ast.unparse(n)}")
+            ty = {(3, False): "G2", (3, True): "S2", (4, False): "G3", (4, True): "S3"}.get((k, isint))
+            if ty is None:
+                raise Untranslatable(f"{self.name}: {ast.unparse(n)}")
+            return "#[]", ty
+        if k == 1 and not isint:
+            return f"(Array.replicate {nat[0]} {fill or 'zero'})", "A1"
+        if k == 2 and not isint:
+            return f"(Grid2.full {nat[0]} {nat[1]} {fill or 'zero'})", "A2"
+        if k == 3 and consts[2] == 2:
+            if fill is not None:
+                raise Untranslatable(f"{self.name}: {ast.unparse(n)}")
+            return (f"(Grid2.full {nat[0]} {nat[1]} (0, 0))", "S2") if isint else \
+                   (f"(Grid2.full {nat[0]} {nat[1]} (zero, zero))", "G2")
+        if k == 3 and not isint:
+            return f"(Grid3.full {nat[0]} {nat[1]} {nat[2]} {fill or 'zero'})", "A3"
+        if k == 4 and consts[3] == 3 and fill is None:
+            return (f"(Grid3.full {nat[0]} {nat[1]} {nat[2]} (0, 0, 0))", "S3") if isint else \
+                   (f"(Grid3.full {nat[0]} {nat[1]} {nat[2]} (zero, zero, zero))", "G3")
+        raise Untranslatable(f"{self.name}: allocation {ast.unparse(n)}")
 
     def lean_name(self):
         return f"{self.modkey}.{self.name.lstrip('_')}"
@@ -353,14 +420,34 @@ class Fn:
             t = s.targets[0]
             if isinstance(t, ast.Name):
                 return (live - {t.id}) | self.uses(s.value)
-            if isinstance(t, ast.Tuple) and all(isinstance(e, ast.Name) for e in t.elts):
-                return (live - {e.id for e in t.elts}) | self.uses(s.value)
+            if isinstance(t, ast.Tuple):
+                names = {e.id for e in t.elts if isinstance(e, ast.Name)}
+                subs = set()
+                for e in t.elts:
+                    if isinstance(e, ast.Subscript):
+                        subs |= self.uses(e)
+                return (live - names) | subs | self.uses(s.value)
             if isinstance(t, ast.Subscript):
                 return live | self.uses(t) | self.uses(s.value)
         if isinstance(s, ast.AugAssign) and isinstance(s.target, ast.Name):
             return live | {s.target.id} | self.uses(s.value)
+        if isinstance(s, ast.AugAssign) and isinstance(s.target, ast.Subscript):
+            return live | self.uses(s.target) | self.uses(s.value)
         if isinstance(s, ast.If):
             return self.uses(s.test) | self.live_in(s.body, live) | self.live_in(s.orelse, live)
+        if isinstance(s, ast.Raise):
+            return set()
+        if isinstance(s, ast.Expr) and isinstance(s.value, ast.Call):
+            return live | self.uses(s.value)
+        if isinstance(s, ast.For) and not s.orelse:
+            tv = {e.id for e in ast.walk(s.target) if isinstance(e, ast.Name)}
+            cur = set(live)
+            while True:          # fixpoint: variables live at the loop head
+                nxt = cur | (self.live_in(s.body, cur) - tv)
+                if nxt == cur:
+                    break
+                cur = nxt
+            return cur | self.uses(s.iter)
         raise Untranslatable(f"{self.name}: statement {type(s).__name__}: {ast.unparse(s)[:80]}")
 
     def assigned(self, stmts):
@@ -372,25 +459,43 @@ class Fn:
                     out.add(t.id)
                 elif isinstance(t, ast.Tuple):
                     out |= {e.id for e in t.elts if isinstance(e, ast.Name)}
+                    out |= {e.value.id for e in t.elts if isinstance(e, ast.Subscript)}
                 elif isinstance(t, ast.Subscript):
                     out.add(t.value.id)
             elif isinstance(s, ast.AugAssign):
-                out.add(s.target.id)
+                out.add(s.target.id if isinstance(s.target, ast.Name) else s.target.value.id)
             elif isinstance(s, ast.If):
                 out |= self.assigned(s.body) | self.assigned(s.orelse)
+            elif isinstance(s, ast.For):
+                out |= self.assigned(s.body) | {e.id for e in ast.walk(s.target) if isinstance(e, ast.Name)}
+            elif isinstance(s, ast.Expr) and isinstance(s.value, ast.Call):
+                out |= set(self.void_call_outputs(s.value))
         return out
+
+    def void_call_outputs(self, call):
+        """names rebound by a call statement to a translated `void` kernel (its mutated array arguments)"""
+        callee = self.tr.resolve(self.modkey, ast.unparse(call.func))
+        if callee is None or callee.rtype is not None or not callee.outputs:
+            return []
+        names = []
+        for o in callee.outputs:
+            a = call.args[callee.params.index(o)]
+            if not isinstance(a, ast.Name):
+                raise Untranslatable(f"{self.name}: output argument {ast.unparse(a)} of {callee.name} is not a variable")
+            names.append(a.id)
+        return names
 
     def returns(self, stmts):
         """every path through `stmts` ends in a return"""
         for s in stmts:
-            if isinstance(s, ast.Return):
+            if isinstance(s, (ast.Return, ast.Raise)):
                 return True
             if isinstance(s, ast.If) and s.orelse and self.returns(s.body) and self.returns(s.orelse):
                 return True
         return False
 
     def may_return(self, stmts):
-        return any(isinstance(x, ast.Return) for s in stmts for x in ast.walk(s))
+        return any(isinstance(x, (ast.Return, ast.Raise)) for s in stmts for x in ast.walk(s))
 
     def block(self, stmts, env, live_out, fall, ind):
         """Lean term (list of lines) for `stmts` followed by `fall(env)`"""
@@ -404,20 +509,46 @@ class Fn:
                 continue
             if isinstance(s, ast.Return):
                 e = self.expr(s.value, env)
+                if self.rtype == "infer":
+                    self.rtype = e[1]
                 want = self.rtype
                 if want == "f":
-                    lines.append(pad + self.coerce_f(e))
+                    val = self.coerce_f(e)
+                elif isinstance(want, tuple) and isinstance(s.value, ast.Tuple):
+                    es = [self.expr(x, env) for x in s.value.elts]
+                    val = "(" + ", ".join(self.coerce_f(x) if wt == "f" else x[0] for x, wt in zip(es, want[1])) + ")"
                 else:
-                    if isinstance(want, tuple) and isinstance(s.value, ast.Tuple):
-                        es = [self.expr(x, env) for x in s.value.elts]
-                        lines.append(pad + "(" + ", ".join(
-                            self.coerce_f(x) if wt == "f" else x[0] for x, wt in zip(es, want[1])) + ")")
-                    else:
-                        lines.append(pad + e[0])
+                    val = e[0]
+                lines.append(pad + (f"Except.ok {val}" if self.raises else val))
                 return lines
+            if isinstance(s, ast.Raise):
+                msg = ast.unparse(s.exc)
+                err = {'ValueError("source out of bound")': "Err.sourceOutOfBound",
+                       'ValueError("end point out of bound")': "Err.endPointOutOfBound",
+                       'RuntimeError("maximum number of steps reached")': "Err.maxSteps"}.get(msg.replace("'", '"'))
+                if err is None:
+                    raise Untranslatable(f"{self.name}: raise {msg}")
+                lines.append(pad + f"Except.error {err}")
+                return lines
+            if isinstance(s, ast.For):
+                lines += self.for_loop(s, env, live_after, ind)
+                continue
+            if isinstance(s, ast.Expr) and isinstance(s.value, ast.Call):
+                outs = self.void_call_outputs(s.value)
+                if not outs:
+                    raise Untranslatable(f"{self.name}: call statement {ast.unparse(s)[:60]}")
+                e = self.call(s.value, env, void_ok=True)
+                pat = "(" + ", ".join(outs) + ")" if len(outs) != 1 else outs[0]
+                lines.append(pad + f"let {pat} := {e[0]}")
+                continue
             if isinstance(s, ast.Assign):
                 t = s.targets[0]
                 if isinstance(t, ast.Name):
+                    if isinstance(s.value, ast.Tuple) and s.value.elts and all(isinstance(x, ast.Tuple) for x in s.value.elts):
+                        # a tuple of tuples that is only iterated over (`for i, j in iterables`)
+                        self.tuple_literals[t.id] = (s.value, dict(env))
+                        env[t.id] = "iterable"
+                        continue
                     e = self.expr(s.value, env)
                     lines.append(pad + f"let {t.id} := {e[0]}")
                     env[t.id] = e[1]
@@ -426,10 +557,25 @@ class Fn:
                     e = self.expr(s.value, env)
                     if not (isinstance(e[1], tuple) and len(e[1][1]) == len(t.elts)):
                         raise Untranslatable(f"{self.name}: tuple assignment {ast.unparse(s)[:80]}")
-                    names = [x.id for x in t.elts]
+                    names, post = [], []
+                    for x, ty in zip(t.elts, e[1][1]):
+                        if isinstance(x, ast.Name):
+                            names.append(x.id)
+                        elif isinstance(x, ast.Subscript):
+                            self.tmp += 1
+                            nm = f"tmp{self.tmp}"
+                            names.append(nm)
+                            post.append((x, nm, ty))
+                        else:
+                            raise Untranslatable(f"{self.name}: tuple assignment {ast.unparse(s)[:80]}")
                     lines.append(pad + f"let ({', '.join(names)}) := {e[0]}")
-                    for nm, ty in zip(names, e[1][1]):
+                    for x, ty in zip(t.elts, e[1][1]):
+                        if isinstance(x, ast.Name):
+                            env[x.id] = ty
+                    for x, nm, ty in post:
                         env[nm] = ty
+                        lines.append(pad + self.store(x, ast.Name(id=nm, ctx=ast.Load()), env))
+                        del env[nm]
                     continue
                 if isinstance(t, ast.Subscript):
                     lines.append(pad + self.store(t, s.value, env))
@@ -440,6 +586,9 @@ class Fn:
                 e = self.expr(fake, env)
                 lines.append(pad + f"let {x} := {e[0]}")
                 env[x] = e[1]
+                continue
+            if isinstance(s, ast.AugAssign) and isinstance(s.target, ast.Subscript):
+                lines.append(pad + self.aug_store(s, env))
                 continue
             if isinstance(s, ast.If):
                 c = self.as_bool(self.expr(s.test, env))
@@ -509,21 +658,103 @@ class Fn:
         if bt == "A3" and len(idx) == 3:
             return (f"let {base} := {base}.set {self.index(idx[0], env)} {self.index(idx[1], env)} "
                     f"{self.index(idx[2], env)} {self.coerce_f(v)}")
-        if bt in ("S2", "S3") and len(idx) == (3 if bt == "S2" else 4):
-            nd = 2 if bt == "S2" else 3
+        if bt == "A1" and len(idx) == 1:
+            if isinstance(idx[0], ast.Slice):
+                if idx[0].lower is None and idx[0].upper is None and idx[0].step is None:
+                    return f"let {base} := Array.replicate {base}.size {self.coerce_f(v)}"
+                raise Untranslatable(f"{self.name}: slice store {ast.unparse(t)}")
+            return f"let {base} := {base}.setIfInBounds {self.index(idx[0], env)} {self.coerce_f(v)}"
+        if bt in ("S2", "S3", "G2", "G3") and len(idx) == (3 if bt in ("S2", "G2") else 4):
+            nd = 2 if bt in ("S2", "G2") else 3
+            isint = bt in ("S2", "S3")
             comp = _const_int(idx[-1])
-            if comp is None or not 0 <= comp < nd or v[1] != "i":
+            if comp is None or not 0 <= comp < nd or (isint and v[1] != "i"):
                 raise Untranslatable(f"{self.name}: store {ast.unparse(t)}")
+            val = v[0] if isint else self.coerce_f(v)
             ii = " ".join(self.index(x, env) for x in idx[:-1])
-            dflt = "(0, 0)" if nd == 2 else "(0, 0, 0)"
+            z = "0" if isint else "zero"
+            dflt = f"({z}, {z})" if nd == 2 else f"({z}, {z}, {z})"
             old = f"({base}.get {dflt} {ii})"
             if nd == 2:
-                new = f"({v[0]}, {old}.2)" if comp == 0 else f"({old}.1, {v[0]})"
+                new = f"({val}, {old}.2)" if comp == 0 else f"({old}.1, {val})"
             else:
-                new = [f"({v[0]}, {old}.2.1, {old}.2.2)", f"({old}.1, {v[0]}, {old}.2.2)",
-                       f"({old}.1, {old}.2.1, {v[0]})"][comp]
+                new = [f"({val}, {old}.2.1, {old}.2.2)", f"({old}.1, {val}, {old}.2.2)",
+                       f"({old}.1, {old}.2.1, {val})"][comp]
             return f"let {base} := {base}.set {ii} {new}"
         raise Untranslatable(f"{self.name}: store {ast.unparse(t)} into {bt}")
+
+    def aug_store(self, s, env):
+        """`ttgrad[i, j] /= gn` (whole component tuple) or `a[i, j] op= v` on a scalar grid"""
+        t = s.target
+        base = t.value.id
+        bt = env.get(base)
+        idx = t.slice.elts if isinstance(t.slice, ast.Tuple) else [t.slice]
+        op = {ast.Add: "+", ast.Sub: "-", ast.Mult: "*", ast.Div: "/"}.get(type(s.op))
+        v = self.coerce_f(self.expr(s.value, env))
+        if op is None:
+            raise Untranslatable(f"{self.name}: {ast.unparse(s)}")
+        if bt == "G2" and len(idx) == 2:
+            ii = " ".join(self.index(x, env) for x in idx)
+            old = f"({base}.get (zero, zero) {ii})"
+            return f"let {base} := {base}.set {ii} ({old}.1 {op} {v}, {old}.2 {op} {v})"
+        if bt == "G3" and len(idx) == 3:
+            ii = " ".join(self.index(x, env) for x in idx)
+            old = f"({base}.get (zero, zero, zero) {ii})"
+            return f"let {base} := {base}.set {ii} ({old}.1 {op} {v}, {old}.2.1 {op} {v}, {old}.2.2 {op} {v})"
+        raise Untranslatable(f"{self.name}: {ast.unparse(s)}")
+
+    def for_loop(self, s, env, live_after, ind):
+        """`for x in range(...)` / `for i, j in <tuple of tuples>` as a left fold over the index list; the
+        state is the tuple of variables assigned in the body that are live at the loop head or after the loop"""
+        pad = "  " * ind
+        if s.orelse:
+            raise Untranslatable(f"{self.name}: for/else")
+        tv = [e.id for e in ast.walk(s.target) if isinstance(e, ast.Name)]
+        head_live = self.live_in1(s, live_after)
+        carried = sorted((self.assigned(s.body) - set(tv)) & (head_live | live_after))
+        for v in carried:
+            if v not in env:
+                raise Untranslatable(f"{self.name}: `{v}` is carried by the loop at line {s.lineno} but not defined before it")
+        # iteration space
+        if isinstance(s.iter, ast.Call) and ast.unparse(s.iter.func) == "range" and isinstance(s.target, ast.Name):
+            a = [self.expr(x, env) for x in s.iter.args]
+            if any(x[1] != "i" for x in a) or not 1 <= len(a) <= 3:
+                raise Untranslatable(f"{self.name}: {ast.unparse(s.iter)}")
+            if len(a) == 1:
+                a = [("(0 : Int)", "i")] + a
+            if len(a) == 2:
+                a = a + [("(1 : Int)", "i")]
+            space = f"(pyRange {a[0][0]} {a[1][0]} {a[2][0]})"
+            pat = s.target.id
+            tvt = {s.target.id: "i"}
+        elif isinstance(s.iter, ast.Name) and s.iter.id in self.tuple_literals and isinstance(s.target, ast.Tuple):
+            lit, envl = self.tuple_literals[s.iter.id]
+            rows = []
+            for row in lit.elts:
+                es = [self.expr(x, envl) for x in row.elts]
+                if any(x[1] != "i" for x in es) or len(es) != len(s.target.elts):
+                    raise Untranslatable(f"{self.name}: iterable {ast.unparse(lit)}")
+                rows.append("(" + ", ".join(x[0] for x in es) + ")")
+            space = "[" + ", ".join(rows) + "]"
+            pat = "(" + ", ".join(e.id for e in s.target.elts) + ")"
+            tvt = {e.id: "i" for e in s.target.elts}
+        else:
+            raise Untranslatable(f"{self.name}: loop over {ast.unparse(s.iter)}")
+        st = "(" + ", ".join(carried) + ")" if len(carried) != 1 else (carried[0] if carried else "()")
+        envb = dict(env)
+        envb.update(tvt)
+
+        def tail(e2):
+            for v in carried:
+                if e2.get(v) != env.get(v):
+                    raise Untranslatable(f"{self.name}: `{v}` changes type inside the loop at line {s.lineno}")
+            return ["  " * (ind + 2) + st]
+        if self.may_return(s.body):
+            raise Untranslatable(f"{self.name}: return/raise inside a for loop (line {s.lineno})")
+        body = self.block(s.body, envb, set(carried) | (head_live - set(tv)), tail, ind + 2)
+        if not carried:
+            return []
+        return ([pad + f"let {st} := {space}.foldl (fun {st} {pat} =>"] + body + [pad + f"  ) {st}"])
 
     def emit(self):
         env = dict(zip(self.params, self.ptypes))
@@ -537,7 +768,11 @@ class Fn:
             rt = " × ".join(lean_type(env[o]) for o in outs)
         else:
             body = self.block(body_stmts, env, set(), None, 1)
+            if self.rtype == "infer":
+                raise Untranslatable(f"{self.name}: no return statement to infer the result type from")
             rt = lean_type(self.rtype)
+            if self.raises:
+                rt = f"Except Err ({rt})"
         ps = ("(big : α) " if self.uses_big else "") + " ".join(
             f"({p} : {lean_type(t)})" for p, t in zip(self.params, self.ptypes))
         doc = f"/-- `{self.modkey}.{self.name}` of the current source (line {self.node.lineno}) -/"
@@ -559,9 +794,11 @@ TARGETS = [
     ("Common", "_common.py", [("norm2d", ([F, F], F), None), ("norm3d", ([F, F, F], F), None),
                               ("dist2d", ([F] * 4, F), None), ("dist3d", ([F] * 6, F), None)]),
     ("F2", "_fteik/_fteik2d.py", [("t_ana", None, None), ("t_anad", None, None), ("delta", None, None),
-                                  ("sweep", None, ["tt", "ttsgn"])]),
+                                  ("sweep", None, ["tt", "ttsgn"]), ("sweep2d", None, ["tt", "ttsgn"]),
+                                  ("fteik2d", None, None)]),
     ("F3", "_fteik/_fteik3d.py", [("t_ana", None, None), ("t_anad", None, None),
-                                  ("sweep", None, ["tt", "ttsgn"])]),
+                                  ("sweep", None, ["tt", "ttsgn"]), ("sweep3d", None, ["tt", "ttsgn"]),
+                                  ("fteik3d", None, None)]),
     ("I2", "_interp/_interp2d.py", [("_interp2d", None, None)]),
     ("I3", "_interp/_interp3d.py", [("_interp3d", None, None)]),
     ("V2", "_interp/_vinterp2d.py", [("_vinterp2d", None, None)]),
